@@ -9,6 +9,34 @@ CHECKS = {
    text="Bounded symbolic execution of the real UInt64Put/Get, UInt32Put/Get and the encoding/binary code they call (from go/ssa): every buffer length 0..16 (0..24 thorough) is forked, all values and all buffer contents are symbolic; each obligation (little-endian bytes, framing, inversion, reads-only-frame, refusal of short buffers without partial writes) is closed by the term rewriter or by z3 (unsat) for every value within the bound. Counterexamples are replayed natively with go test.",
    note="Trusted: go/ssa as Go semantics, the gosym executor/simplifier, z3. Outside the claim: buffers longer than the bound.",
    tech="symbolic execution of go/ssa + SMT (z3), native replay"),
+ "C09": dict(cat="model_checking", ref="§4 C09",
+   text="Real mem.go/file.go/disk.go and the async_disk aliases are executed symbolically from go/ssa (file disk on a POSIX kernel model). One inductive step from an arbitrary reachable state: every block is set to 4096 symbolic bytes through the public API, then one arbitrary operation (Read/ReadTo/Write/Size/Barrier, via method, global wrapper or async_disk) with a fully symbolic 64-bit address, symbolic contents and write-buffer lengths from a boundary set is compared with a register-array model, including aliasing probes; thorough adds depth-2 histories. The solver decides the address/refusal obligations for all 2^64 addresses; content obligations are closed by the rewriter. Counterexamples replay natively (real kernel).",
+   note="Trusted: go/ssa, gosym, z3, kernel model. Assumes every reachable disk state is reachable by one Write per block; n ≤ 3 blocks; ReadTo with block-sized buffers; disks whose byte size exceeds off_t are outside.",
+   tech="symbolic execution of go/ssa + SMT, inductive step vs register model, native replay"),
+ "C10": dict(cat="model_checking", ref="§4 C10",
+   text="Lock-discipline verification conditions discharged per method by sequential symbolic execution with a lock monitor, for all addresses/contents and on all paths including panics: every access to block bytes under d.l in an adequate mode, one critical section per operation, lock released on every exit, Size touches no shared cell; file disk: one positional syscall per operation, disjoint byte ranges for distinct addresses (bit-vector query), no Go-level shared state. Linearizability follows by a trusted meta-theorem; schedules are not enumerated. Discipline violations replay as a two-goroutine test under the race detector.",
+   note="Trusted: meta-theorem lock discipline ⇒ race freedom ⇒ atomic sections ⇒ linearizable; kernel atomicity of pread/pwrite; gosym lock monitor.",
+   tech="symbolic execution + lock-discipline VCs (modular linearizability), -race replay"),
+ "C11": dict(cat="model_checking", ref="§4 C11",
+   text="NewFileDisk/ReadTo/Write/Barrier/Close on the kernel model: reopen after arbitrary writes; prior image with a fully symbolic 64-bit length L and symbolic content (the solver ranges over all L — this found the L == numBlocks coincidence, now fixed); every single injected syscall failure must surface as error/panic; Write·Barrier followed by a modelled power loss (arbitrary durable prefix of unflushed writes) must preserve the block.",
+   note="Trusted: kernel model incl. durability rules (data durable only via fsync; a prefix of pending writes survives); failing syscalls have no effect; short transfers without errno outside the claim. Fault/crash counterexamples are model-level (not replayable natively), the rest replays natively.",
+   tech="symbolic execution on a POSIX kernel model with symbolic file length, fault and crash forks + SMT"),
+ "C12": dict(cat="model_checking", ref="§4 C12",
+   text="All of mem.go and dir.go (on the kernel model) driven in lock-step with a reference model over every valid history of bounded length from the empty file system (k=3 one directory, k=2 two directories; k=4 thorough), data bytes symbolic, ReadAt offset fully symbolic (<2^63) and length symbolic ≤4, followed by a final observation of listings, contents and open read descriptors; obligations: equal results, no panic on valid calls, no aliasing. Found the MemFs descriptor==inode defect (fixed). Counterexamples replay natively on MemFs and on DirFs over a real temp directory.",
+   note="Trusted: kernel model, reference model (harness/filesys/zz_verif_model.go), gosym, z3. Histories longer than the bound, more names/directories, offsets ≥ 2^63 are outside.",
+   tech="bounded symbolic execution of histories, differential vs reference model + SMT, native replay"),
+ "C13": dict(cat="model_checking", ref="§4 C13",
+   text="DirFs.AtomicCreate on the kernel model with crash points, durable-prefix choice and single faults: leftovers produced by really crashing an earlier call at every syscall (and planted leftovers at both candidate locations), every crash point of the call itself with volatile (every instant) and post-reboot observation ∈ {old, data}, each single failing syscall ⇒ panic and old-or-new, fsync-before-rename order, path-disjointness of calls for different (dir,name) (with a native concurrent stress replay); MemFs.AtomicCreate copy/atomic install. Found and fixed: missing O_TRUNC, temp file in root.",
+   note="Trusted: crash model (ordered namespace journal, data only via fsync), atomic rename, kernel model. Concurrent creators are not scheduled; interference is decided through disjointness of touched kernel paths. Crash/fault counterexamples are model-level.",
+   tech="symbolic execution on kernel model with crash-point / durable-prefix / fault forks + SMT"),
+ "C14": dict(cat="model_checking", ref="§4 C14",
+   text="MemFs: lock-discipline VCs for all methods (and misuse calls) from a representative pre-history, symbolic data/offset, every path including checkDir/checkMode panics: all accesses to validDirs/inodes/dirents/openFiles and inode bytes under fs.m, one critical section, released on every exit; descriptor distinctness over all 4-step open/close histories. DirFs: exactly one syscall per single-syscall operation, Create passes O_CREAT|O_EXCL, no Go-level shared state. Linearizability by trusted meta-theorem; -race replay.",
+   note="Trusted: meta-theorem (lock discipline ⇒ linearizable), kernel atomicity of openat(O_EXCL)/linkat/unlinkat/renameat/write/pread, gosym lock monitor. Schedules not enumerated.",
+   tech="symbolic execution + lock-discipline VCs, -race replay"),
+ "C16": dict(cat="model_checking", ref="§4 C16",
+   text="UInt64ToString for all 2^64 values (fork over the 20 digit counts; digits-only, no leading zero, value round-trip, injectivity decided by z3); MapClear on ≤3 symbolic entries under every iteration order at two instantiations; Assume/Assert for both booleans; WaitTimeout's delegation contract (called once with the caller's cond and unscaled timeout) for all timeouts.",
+   note="fmt.Sprintf is an intrinsic (canonical decimal by fresh digit variables): the check decides that the real code formats x itself, not fmt's correctness. Real-time bounds of WaitTimeout are not claimed (primitive.WaitTimeout is stubbed).",
+   tech="symbolic execution of go/ssa + SMT (z3), native replay"),
 }
 NOT_YET = {}
 for i in range(1, 19):
